@@ -365,10 +365,13 @@ macro "safe_lemma" : tactic => `(tactic| first
 macro "val_side" : tactic => `(tactic| first
   | (intro _ hv; exact hv)
   | (intro _ _; exact valIn_sliceVal (by assumption))
-  | (intro _ _; simp only [ValIn]))
+  | (intro _ _; simp only [ValIn]; done)
+  | (intro _ _; simp only [ValIn]; omega))
 
 /-- one structural step of a `Keeps (PInv d)` proof -/
 macro "keeps_step" : tactic => `(tactic| with_reducible first
+  | apply Keeps.bind
+  | intro _
   | exact Keeps.pure trivial
   | exact Keeps.pure (φ := fun _ => True) trivial
   | exact Keeps.throw _
@@ -386,12 +389,8 @@ macro "keeps_step" : tactic => `(tactic| with_reducible first
   | exact keeps_tree (fun _ ht => kt_detach ht _ _)
   | exact keeps_tree (fun _ ht => kt_free ht _)
   | exact keeps_modify _ (fun _ => ⟨rfl, rfl⟩)
-  | assumption
-  | apply_assumption -exfalso
-  | (apply Keeps.tt; assumption)
-  | apply Keeps.bind
-  | intro _
   | split
+  | apply_assumption -exfalso
   | dsimp only)
 macro "keeps_tac" : tactic => `(tactic| repeat' keeps_step)
 
@@ -611,11 +610,21 @@ theorem keeps_fieldConnection (curObj : Nat) (st : FieldSt) : Keeps (PInv d) (fi
   have h2 := keeps_connName hd
   keeps_tac
 
-set_option maxRecDepth 10000 in
 theorem keeps_fieldNamed (curObj : Nat) (st : FieldSt) : Keeps (PInv d) (fieldNamed d curObj st) (fun _ => True) := by
   unfold fieldNamed
   have h1 := @keeps_readFieldName d
-  keeps_tac
+  apply Keeps.bind; exact keeps_lex_safe (by safe_lemma); intro _ _
+  apply Keeps.bind; exact keeps_newObject _; intro _ _
+  apply Keeps.bind; exact keeps_lex_safe (by safe_lemma); intro _ _
+  apply Keeps.bind; exact keeps_updObj _ _ (by val_side); intro _ _
+  apply Keeps.bind; exact h1 _ _ _; intro _ _
+  split
+  · keeps_step
+  · apply Keeps.bind; exact keeps_lex_safe (by safe_lemma); intro _ _
+    split
+    · keeps_step
+    · apply Keeps.bind; exact keeps_getObj _; intro _ _
+      keeps_tac
 
 include hd in
 theorem keeps_fieldStep (curObj : Nat) (st : FieldSt) : Keeps (PInv d) (fieldStep d curObj st) (fun _ => True) := by
@@ -674,8 +683,8 @@ structure FirstPassKeeps (d : Bytes) (f : Nat) : Prop where
   strictTermArg : ∀ c, Keeps (PInv d) (parseStrictTermArg d f c) (fun _ => True)
   target : Keeps (PInv d) (parseTarget d f) (fun _ => True)
 
-set_option maxRecDepth 10000 in
-set_option maxHeartbeats 1600000 in
+set_option maxRecDepth 4000 in
+set_option maxHeartbeats 800000 in
 include hd in
 theorem firstPassKeeps (f : Nat) : FirstPassKeeps d f := by
   induction f with
@@ -726,6 +735,319 @@ theorem firstPassKeeps (f : Nat) : FirstPassKeeps d f := by
       | succ n => unfold methodArgsLoop; keeps_tac
     · intro c; unfold parseStrictTermArg; keeps_tac
     · unfold parseTarget; keeps_tac
+
+/-! ### `parseObjectList` and the tree passes -/
+
+include hd in
+theorem keeps_objectListInner (fuel n : Nat) : Keeps (PInv d) (objectListInner d fuel n) (fun _ => True) := by
+  induction n with
+  | zero => unfold objectListInner; exact Keeps.throw _
+  | succ n ih =>
+    unfold objectListInner
+    have h1 := (firstPassKeeps hd fuel).nextObject
+    keeps_tac
+
+include hd in
+theorem keeps_parseObjectList (fuel n : Nat) : Keeps (PInv d) (parseObjectList d fuel n) (fun _ => True) := by
+  induction n with
+  | zero => unfold parseObjectList; exact Keeps.throw _
+  | succ n ih =>
+    unfold parseObjectList
+    have h1 := keeps_objectListInner hd
+    have h2 := @keeps_scopeExit d
+    have h3 := @keeps_popPkgEnd d
+    keeps_tac
+
+theorem keeps_attachSiblingsAsArgs (p t : Nat) (u : Bool) (n i : Nat) :
+    Keeps (PInv d) (attachSiblingsAsArgs p t u n i) (fun _ => True) := by
+  induction n generalizing i with
+  | zero => unfold attachSiblingsAsArgs; exact Keeps.pure trivial
+  | succ n ih => unfold attachSiblingsAsArgs; keeps_tac
+
+theorem keeps_firstTermArg (info n i c : Nat) : Keeps (PInv d) (firstTermArg info n i c) (fun _ => True) := by
+  induction n generalizing i with
+  | zero => unfold firstTermArg; exact Keeps.pure trivial
+  | succ n ih => unfold firstTermArg; keeps_tac
+
+theorem keeps_numArgs (o : Nat) : Keeps (PInv d) (numArgs o) (fun _ => True) := by
+  unfold numArgs; keeps_tac
+theorem keeps_prevOf (o : Nat) : Keeps (PInv d) (prevOf o) (fun _ => True) := by
+  unfold prevOf; keeps_tac
+theorem keeps_nextOf (o : Nat) : Keeps (PInv d) (nextOf o) (fun _ => True) := by
+  unfold nextOf; keeps_tac
+
+theorem keeps_connectNamedStep (obj argObj : Nat) : Keeps (PInv d) (connectNamedStep d obj argObj) (fun _ => True) := by
+  unfold connectNamedStep
+  have h1 := @keeps_attachSiblingsAsArgs d
+  have h2 := @keeps_firstTermArg d
+  have h3 := @keeps_numArgs d
+  have h4 := @keeps_nextOf d
+  keeps_tac
+
+set_option maxRecDepth 4000 in
+theorem keeps_connectNamed (f : Nat) :
+    (∀ i, Keeps (PInv d) (connectNamedObjArgs d f i) (fun _ => True)) ∧
+    (∀ o i, Keeps (PInv d) (connectNamedLoop d f o i) (fun _ => True)) := by
+  induction f with
+  | zero =>
+    constructor
+    · intro i; unfold connectNamedObjArgs; exact Keeps.throw _
+    · intro o i; unfold connectNamedLoop; exact Keeps.throw _
+  | succ f ih =>
+    have i1 := ih.1
+    have i2 := ih.2
+    have h1 := @keeps_connectNamedStep d
+    have h2 := @keeps_prevOf d
+    constructor
+    · intro i; unfold connectNamedObjArgs; keeps_tac
+    · intro o i; unfold connectNamedLoop; keeps_tac
+
+theorem keeps_findScopeBlock (f i : Nat) : Keeps (PInv d) (findScopeBlock f i) (fun _ => True) := by
+  induction f generalizing i with
+  | zero => unfold findScopeBlock; exact Keeps.throw _
+  | succ f ih => unfold findScopeBlock; keeps_tac
+
+theorem keeps_scopeBlockOf (f t : Nat) : Keeps (PInv d) (scopeBlockOf f t) (fun _ => True) := by
+  unfold scopeBlockOf
+  have h1 := @keeps_findScopeBlock d
+  keeps_tac
+
+theorem keeps_moveContents (c t f i : Nat) : Keeps (PInv d) (moveContents c t f i) (fun _ => True) := by
+  induction f generalizing i with
+  | zero => unfold moveContents; exact Keeps.throw _
+  | succ f ih =>
+    unfold moveContents
+    have h1 := @keeps_nextOf d
+    keeps_tac
+
+theorem keeps_bytesValue (i : Nat) : Keeps (PInv d) (bytesValue d i) (fun _ => True) := by
+  unfold bytesValue; keeps_tac
+
+theorem keeps_mergeScope (fuel obj : Nat) : Keeps (PInv d) (mergeScope d fuel obj) (fun _ => True) := by
+  unfold mergeScope
+  have h1 := @keeps_bytesValue d
+  have h2 := @keeps_scopeBlockOf d
+  have h3 := @keeps_moveContents d
+  keeps_tac
+
+theorem keeps_merge (f : Nat) :
+    (∀ i, Keeps (PInv d) (mergeScopeDirectives d f i) (fun _ => True)) ∧
+    (∀ i r, Keeps (PInv d) (mergeLoop d f i r) (fun _ => True)) := by
+  induction f with
+  | zero =>
+    constructor
+    · intro i; unfold mergeScopeDirectives; exact Keeps.throw _
+    · intro i r; unfold mergeLoop; exact Keeps.throw _
+  | succ f ih =>
+    have i1 := ih.1
+    have i2 := ih.2
+    have h1 := @keeps_mergeScope d
+    constructor
+    · intro i; unfold mergeScopeDirectives; keeps_tac
+    · intro i r; unfold mergeLoop; keeps_tac
+
+theorem keeps_isAncestorOrSelf (o f a : Nat) : Keeps (PInv d) (isAncestorOrSelf o f a) (fun _ => True) := by
+  induction f generalizing a with
+  | zero => unfold isAncestorOrSelf; exact Keeps.throw _
+  | succ f ih => unfold isAncestorOrSelf; keeps_tac
+
+theorem keeps_relocateOne (fuel obj off len : Nat) (bytes : List UInt8) (hfit : off + len ≤ d.size) :
+    Keeps (PInv d) (relocateOne d fuel obj off len bytes) (fun _ => True) := by
+  unfold relocateOne
+  have h2 := @keeps_scopeBlockOf d
+  have h3 := @keeps_isAncestorOrSelf d
+  keeps_tac
+
+theorem valBytes_fit {v : Val} {nb : Nat × Nat × List UInt8} (hv : ValIn d v) (h : valBytes d v = some nb) :
+    nb.1 + nb.2.1 ≤ d.size := by
+  unfold valBytes at h
+  split at h
+  · cases h; exact hv
+  · cases h
+
+theorem keeps_relocateNamed (fuel obj : Nat) : Keeps (PInv d) (relocateNamed d fuel obj) (fun _ => True) := by
+  unfold relocateNamed
+  apply Keeps.bind; exact keeps_getObj _; intro _ _
+  apply Keeps.bind; exact keeps_objectAt _; intro _ _
+  apply Keeps.bind; exact keeps_derefP _; intro _ _
+  apply Keeps.bind; exact keeps_getObj _; intro o ho
+  split
+  · exact Keeps.pure trivial
+  · rename_i nb hnb
+    split
+    · exact keeps_relocateOne _ _ _ _ _ (valBytes_fit ho hnb)
+    · exact Keeps.pure trivial
+
+theorem keeps_relocate (f : Nat) :
+    (∀ i, Keeps (PInv d) (relocateNamedObjects d f i) (fun _ => True)) ∧
+    (∀ i r, Keeps (PInv d) (relocateLoop d f i r) (fun _ => True)) := by
+  induction f with
+  | zero =>
+    constructor
+    · intro i; unfold relocateNamedObjects; exact Keeps.throw _
+    · intro i r; unfold relocateLoop; exact Keeps.throw _
+  | succ f ih =>
+    have i1 := ih.1
+    have i2 := ih.2
+    have h1 := @keeps_relocateNamed d
+    constructor
+    · intro i; unfold relocateNamedObjects; keeps_tac
+    · intro i r; unfold relocateLoop; keeps_tac
+
+theorem keeps_popAllPkgEnds (n : Nat) : Keeps (PInv d) (popAllPkgEnds d n) (fun _ => True) := by
+  induction n with
+  | zero => unfold popAllPkgEnds; exact Keeps.pure trivial
+  | succ n ih =>
+    unfold popAllPkgEnds
+    have h1 := @keeps_popPkgEnd d
+    keeps_tac
+
+include hd in
+theorem keeps_parseDeferred (fuel obj : Nat) : Keeps (PInv d) (parseDeferred d fuel obj) (fun _ => True) := by
+  unfold parseDeferred
+  have h1 := (firstPassKeeps hd fuel).objectArgs
+  have h2 := @keeps_popAllPkgEnds d
+  have h3 : Keeps (PInv d) (fun s => pure (s.streamEnd, s) : P Nat) (fun _ => True) :=
+    ⟨fun s hs a s' e => by cases e; exact ⟨hs, trivial⟩⟩
+  keeps_tac
+
+include hd in
+theorem keeps_deferred (fuel f : Nat) :
+    (∀ i, Keeps (PInv d) (parseDeferredBlocks d fuel f i) (fun _ => True)) ∧
+    (∀ i, Keeps (PInv d) (deferredLoop d fuel f i) (fun _ => True)) := by
+  induction f with
+  | zero =>
+    constructor
+    · intro i; unfold parseDeferredBlocks; exact Keeps.throw _
+    · intro i; unfold deferredLoop; exact Keeps.throw _
+  | succ f ih =>
+    have i1 := ih.1
+    have i2 := ih.2
+    have h1 := keeps_parseDeferred hd
+    have h2 := @keeps_nextOf d
+    constructor
+    · intro i; unfold parseDeferredBlocks; keeps_tac
+    · intro i; unfold deferredLoop; keeps_tac
+
+theorem keeps_connectNonNamedStep (obj argObj : Nat) : Keeps (PInv d) (connectNonNamedStep obj argObj) (fun _ => True) := by
+  unfold connectNonNamedStep
+  have h1 := @keeps_attachSiblingsAsArgs d
+  have h2 := @keeps_firstTermArg d
+  have h3 := @keeps_numArgs d
+  have h4 := @keeps_nextOf d
+  keeps_tac
+
+set_option maxRecDepth 4000 in
+theorem keeps_connectNonNamed (f : Nat) :
+    (∀ i, Keeps (PInv d) (connectNonNamedObjArgs f i) (fun _ => True)) ∧
+    (∀ o i, Keeps (PInv d) (connectNonNamedLoop f o i) (fun _ => True)) := by
+  induction f with
+  | zero =>
+    constructor
+    · intro i; unfold connectNonNamedObjArgs; exact Keeps.throw _
+    · intro o i; unfold connectNonNamedLoop; exact Keeps.throw _
+  | succ f ih =>
+    have i1 := ih.1
+    have i2 := ih.2
+    have h1 := @keeps_connectNonNamedStep d
+    have h2 := @keeps_prevOf d
+    constructor
+    · intro i; unfold connectNonNamedObjArgs; keeps_tac
+    · intro o i; unfold connectNonNamedLoop; keeps_tac
+
+theorem keeps_mutateOpcode (a op : Nat) : Keeps (PInv d) (mutateOpcode a op) (fun _ => True) := by
+  unfold mutateOpcode; keeps_tac
+
+theorem keeps_resolveToMethod (o a r : Nat) : Keeps (PInv d) (resolveToMethod o a r) (fun _ => True) := by
+  unfold resolveToMethod
+  have h1 := @keeps_mutateOpcode d
+  have h2 := @keeps_attachSiblingsAsArgs d
+  have h3 := @keeps_nextOf d
+  keeps_tac
+
+theorem keeps_resolveStep (o a : Nat) : Keeps (PInv d) (resolveStep d o a) (fun _ => True) := by
+  unfold resolveStep
+  have h1 := @keeps_mutateOpcode d
+  have h2 := @keeps_resolveToMethod d
+  have h3 := @keeps_bytesValue d
+  keeps_tac
+
+theorem keeps_resolve (f : Nat) :
+    (∀ i, Keeps (PInv d) (resolveMethodCalls d f i) (fun _ => True)) ∧
+    (∀ o i, Keeps (PInv d) (resolveLoop d f o i) (fun _ => True)) := by
+  induction f with
+  | zero =>
+    constructor
+    · intro i; unfold resolveMethodCalls; exact Keeps.throw _
+    · intro o i; unfold resolveLoop; exact Keeps.throw _
+  | succ f ih =>
+    have i1 := ih.1
+    have i2 := ih.2
+    have h1 := @keeps_resolveStep d
+    have h2 := @keeps_prevOf d
+    constructor
+    · intro i; unfold resolveMethodCalls; keeps_tac
+    · intro o i; unfold resolveLoop; keeps_tac
+
+theorem keeps_resolveLoopPasses (fuel n : Nat) : Keeps (PInv d) (resolveLoopPasses d fuel n) (fun _ => True) := by
+  induction n with
+  | zero => unfold resolveLoopPasses; exact Keeps.throw _
+  | succ n ih =>
+    unfold resolveLoopPasses
+    have h1 := (@keeps_merge d fuel).1
+    have h2 := (@keeps_relocate d fuel).1
+    keeps_tac
+
+/-! ### `ParseAML` -/
+
+include hd in
+theorem keeps_parseAMLBody (fuel : Nat) : Keeps (PInv d) (parseAMLBody d fuel) (fun _ => True) := by
+  unfold parseAMLBody
+  have h1 := @keeps_scopeEnter d
+  have h2 := keeps_parseObjectList hd
+  have h3 := (@keeps_connectNamed d fuel).1
+  have h4 := @keeps_resolveLoopPasses d
+  have h5 := (keeps_deferred hd fuel fuel).1
+  have h6 := (@keeps_resolve d fuel).1
+  have h7 := (@keeps_connectNonNamed d fuel).1
+  keeps_tac
+
+theorem modify_run {f : PState → PState} {s s' : PState} {a : Unit} (e : (modify f : P Unit) s = .ok (a, s')) :
+    s' = f s := by
+  have e' : (Except.ok ((), f s) : Res (Unit × PState)) = .ok (a, s') := e
+  cases e'; rfl
+
+/-- `init` establishes the invariant from any state whose stored values lie inside the table -/
+theorem init_establishes (handle : Nat) (s : PState) (hs : AllValsIn d s.tree) :
+    ∀ a s', init d handle s = .ok (a, s') → PInv d s' := by
+  intro a s' e
+  unfold init at e
+  obtain ⟨_, s1, e1, ea⟩ := bind_ok e
+  obtain ⟨_, s2, e2, eb⟩ := bind_ok ea
+  obtain ⟨_, s3, e3, ec⟩ := bind_ok eb
+  have h1 := modify_run e1
+  have h2 := modify_run e2
+  have hi2 : PInv d s2 := by
+    rw [h2, h1]
+    refine ⟨?_, hs⟩
+    constructor
+    · show (if headerLen > d.size then d.size else headerLen) ≤ d.size
+      split <;> omega
+    · exact Nat.le_refl _
+  have k3 := (keeps_pushPkgEnd (d := d) d.size).run s2 hi2 _ _ e3
+  obtain ⟨_, hs'⟩ := pure_run ec
+  rw [hs']; exact k3.1
+
+/-- **the parser keeps every stored value inside the table** (partial correctness): whenever
+`parseAML` returns — success or parse error — from a tree whose stored values lie inside `d`, the
+reader window and every value stored in the resulting pool lie inside `d` -/
+theorem parseAML_keeps (hd : d.size + 1024 ≤ 4294967296) (fuel handle : Nat) (s : PState) (hs : AllValsIn d s.tree) :
+    ∀ ok s', parseAML d fuel handle s = .ok (ok, s') → Inv d s'.r ∧ AllValsIn d s'.tree := by
+  intro ok s' e
+  unfold parseAML at e
+  obtain ⟨_, s1, e1, ea⟩ := bind_ok e
+  have k1 := init_establishes handle s hs _ _ e1
+  exact ((keeps_parseAMLBody hd fuel).run s1 k1 _ _ ea).1
 
 end
 
